@@ -269,6 +269,123 @@ pub fn run(ctx: &mut Ctx) -> (&'static str, String, bool) {
         }
         ctx.merge(p);
     }
+    // ---- a transport that is not ready for a long time (virtual clock): "no matter ... how often it reports that it is
+    //      not ready" has no time limit. Stalls of 10 s ... 10 min between accepted pieces, under tokio's paused clock ---
+    if !miri {
+        use std::{
+            future::Future,
+            pin::Pin,
+            task::{Context, Poll},
+            time::Duration,
+        };
+
+        use tokio::io::{AsyncRead, AsyncWrite, ReadBuf};
+
+        #[derive(Debug)]
+        struct SlowSink {
+            /// (bytes accepted by this call, stall before it)
+            plan: std::collections::VecDeque<(usize, Duration)>,
+            sleeping: Option<Pin<Box<tokio::time::Sleep>>>,
+            written: std::sync::Arc<std::sync::Mutex<Vec<u8>>>,
+        }
+        impl AsyncRead for SlowSink {
+            fn poll_read(self: Pin<&mut Self>, _cx: &mut Context<'_>, _buf: &mut ReadBuf<'_>) -> Poll<std::io::Result<()>> {
+                Poll::Pending
+            }
+        }
+        impl AsyncWrite for SlowSink {
+            fn poll_write(mut self: Pin<&mut Self>, cx: &mut Context<'_>, buf: &[u8]) -> Poll<std::io::Result<usize>> {
+                let (k, stall) = self.plan.front().copied().unwrap_or((usize::MAX, Duration::ZERO));
+                if !stall.is_zero() {
+                    if self.sleeping.is_none() {
+                        self.sleeping = Some(Box::pin(tokio::time::sleep(stall)));
+                    }
+                    if self.sleeping.as_mut().unwrap().as_mut().poll(cx).is_pending() {
+                        return Poll::Pending;
+                    }
+                    self.sleeping = None;
+                }
+                let _ = self.plan.pop_front();
+                let n = k.max(1).min(buf.len());
+                self.written.lock().unwrap().extend_from_slice(&buf[..n]);
+                Poll::Ready(Ok(n))
+            }
+            fn poll_flush(self: Pin<&mut Self>, _cx: &mut Context<'_>) -> Poll<std::io::Result<()>> {
+                Poll::Ready(Ok(()))
+            }
+            fn poll_shutdown(self: Pin<&mut Self>, _cx: &mut Context<'_>) -> Poll<std::io::Result<()>> {
+                Poll::Ready(Ok(()))
+            }
+        }
+        let mut p = Part::new();
+        let mut r = base_rng.fork(6060);
+        for case in 0..ctx.tier.pick(24u64, 200u64) {
+            let compressed = case % 2 == 0;
+            let mut packets = vec![];
+            let mut expected = vec![];
+            for _ in 0..3 {
+                let lay = r.pick(c.kinds());
+                let o = GenOpts { text: TextMode::Ascii, max_list: Some(8), boundary: 4, hostile: false };
+                if let Ok((_, pk)) = c.packet(&mut r, lay, &o) {
+                    if let Enc::Ok(e) = real_encode(&pk, compressed) {
+                        packets.push(pk);
+                        expected.extend_from_slice(&e);
+                    }
+                }
+            }
+            // stalls: one long one, or many medium ones, always after at least one byte of a frame was accepted
+            let mut plan = std::collections::VecDeque::new();
+            match case % 3 {
+                0 => {
+                    plan.push_back((1 + r.usize_below(3), Duration::ZERO));
+                    plan.push_back((usize::MAX, Duration::from_secs(95 + r.below(600))));
+                },
+                1 => {
+                    for _ in 0..30 {
+                        plan.push_back((1 + r.usize_below(4), Duration::from_secs(10)));
+                    }
+                },
+                _ => {
+                    plan.push_back((2, Duration::from_secs(89)));
+                    plan.push_back((1, Duration::from_secs(91)));
+                    plan.push_back((usize::MAX, Duration::from_secs(3600)));
+                },
+            }
+            let written = std::sync::Arc::new(std::sync::Mutex::new(vec![]));
+            let sink = SlowSink { plan, sleeping: None, written: written.clone() };
+            let rt = match tokio::runtime::Builder::new_current_thread().enable_time().start_paused(true).build() {
+                Ok(rt) => rt,
+                Err(_) => continue,
+            };
+            let outcome: Result<(), String> = rt.block_on(async {
+                let mut f = insim::net::tokio_impl::Framed::new(Box::new(sink), insim::net::Codec::new(crate::transport::mode_of(compressed)));
+                for pk in packets.clone() {
+                    f.write(pk).await.map_err(|e| e.to_string())?;
+                }
+                Ok(())
+            });
+            p.evaluations += 1;
+            p.distinct(&(case, &expected));
+            p.count("slow_transport_sessions", 1);
+            let got = written.lock().unwrap().clone();
+            if outcome.is_err() || got != expected {
+                p.violation(
+                    "C06/tokio/slow-transport",
+                    format!(
+                        "tokio {}: {} packets written to a transport that stalls for minutes (virtual time): write returned {:?}; {} of {} bytes reached the transport{}",
+                        mode_name(compressed),
+                        packets.len(),
+                        outcome,
+                        got.len(),
+                        expected.len(),
+                        if expected.starts_with(&got) { "" } else { ", not a prefix of the frames" }
+                    ),
+                    json!({"mode": mode_name(compressed), "case": case, "expected_len": expected.len(), "written": hex(&got[..got.len().min(256)])}),
+                );
+            }
+        }
+        ctx.merge(p);
+    }
     // ---- connections made by Builder::tcp over loopback ---------------------------------------------------------
     if !miri {
         use crate::realconn::builder_tcp_session;
@@ -319,7 +436,7 @@ pub fn run(ctx: &mut Ctx) -> (&'static str, String, bool) {
     ctx.assume("Interrupted (EINTR) is injected for the blocking transport only, where std's write_all semantics define it as retryable");
     (
         "fault_enumeration",
-        "every composition of short frames (<=12 bytes) into per-call accepted counts x Pending 0..2 before every call x {blocking,tokio} x both modes; sequences of 1..24 packets of every kind under 1-byte, 3-byte, all-but-one, random and everything-at-once acceptance with Pending / EINTR injection; hard errors mid-frame; tokio also over a buffering transport whose flush is Pending 0-2 times; connections made by Builder::tcp over loopback writing 40 / 1500 packets that the peer reads to EOF; distinct = distinct (impl, mode, packets, plan)".into(),
+        "every composition of short frames (<=12 bytes) into per-call accepted counts x Pending 0..2 before every call x {blocking,tokio} x both modes; sequences of 1..24 packets of every kind under 1-byte, 3-byte, all-but-one, random and everything-at-once acceptance with Pending / EINTR injection; hard errors mid-frame; tokio also over a buffering transport whose flush is Pending 0-2 times, and over a transport that stalls for 10 s - 1 h of virtual time inside a frame; connections made by Builder::tcp over loopback writing 40 / 1500 packets that the peer reads to EOF; distinct = distinct (impl, mode, packets, plan)".into(),
         true,
     )
 }
